@@ -28,6 +28,19 @@ class HdlcAddress:
         default="client", validator=[validators.validate_hdlc_address_type]
     )
 
+    def __attrs_post_init__(self):
+        if self.address_type == "client" and self.physical_address is not None:
+            raise ValueError("A client address is one byte and has no physical part")
+        if (
+            self.address_type == "server"
+            and self.physical_address is None
+            and self.logical_address > 0b01111111
+        ):
+            raise ValueError(
+                "A server address with a logical part above 127 needs the four byte "
+                "form and therefore a physical part"
+            )
+
     @property
     def length(self):
         """
